@@ -328,6 +328,20 @@ class KState:
                         for y in walk(l):
                             if y.get("k") in ("MemberExpr", "CXXDependentScopeMemberExpr") and y.get("name") == dst:
                                 consumed.add(id(y))
+            if k in ("CallExpr", "CXXMemberCallExpr") and (tbf.callee_name(x) or "") not in WRITE_CALLS and "execute" not in (tbf.callee_name(x) or "").lower():
+                # a member handed to a callee through a non-const reference / pointer parameter may be written there
+                nm_ = tbf.callee_name(x)
+                args_ = tbf.call_args(x)
+                cands_ = [g for g in self.facts.functions if g["name"] == nm_ and not g.get("inst") and len(g["params"]) == len(args_)]
+                for i_, a_ in enumerate(args_):
+                    mname = self.field_ref(a_, names) if strip(a_).get("k") in ("MemberExpr", "CXXDependentScopeMemberExpr") else None
+                    if mname is None or not cands_:
+                        continue
+                    pts = [g["params"][i_]["t"].strip() for g in cands_]
+                    if all((t_.endswith("&") and not t_.startswith("const ")) for t_ in pts):
+                        ev.append((x["l"][1], "wpart", mname, x, "by reference to %s()" % nm_))
+                        for y in walk(a_):
+                            consumed.add(id(y))
             if k == "ReturnStmt" and kids(x):
                 r = self.field_ref(kids(x)[0], ptrish)
                 if r:
